@@ -6,7 +6,6 @@ import polars as pl
 
 from rtflite import RTFDocument
 
-from ..attributes import BroadcastValue
 from ..input import RTFBody
 from ..pagination.processor import PageFeatureProcessor
 from ..pagination.strategies import PageContext, PaginationContext, StrategyRegistry
@@ -374,24 +373,10 @@ class UnifiedRTFEncoder(EncodingStrategy):
 
         from ..type_guards import is_nested_header_list
 
-        # Calculate column counts for border management
-        if isinstance(document.df, list):
-            first_section_cols = document.df[0].shape[1] if document.df else 0
-        else:
-            first_section_cols = document.df.shape[1] if document.df is not None else 0
-
         # Document structure components
         # rtf_title is handled per section via temp_document and renderer
-        # so we don't need to pre-calculate it here.
-
-        # Handle page borders (use first section for dimensions)
-        # doc_border_top is not used in this scope
-        doc_border_bottom_list = BroadcastValue(
-            value=document.rtf_page.border_last, dimension=(1, first_section_cols)
-        ).to_list()
-        doc_border_bottom = (
-            doc_border_bottom_list[0] if doc_border_bottom_list else None
-        )
+        # so we don't need to pre-calculate it here. Page borders are passed to the
+        # first / last section through their section_page below.
 
         # Encode sections
         all_section_content = []
@@ -513,22 +498,6 @@ class UnifiedRTFEncoder(EncodingStrategy):
                 temp_document, section_df, section_body
             )
             all_section_content.extend(section_body_content)
-
-        # Handle bottom borders on last section
-        if document.rtf_footnote is not None and doc_border_bottom is not None:
-            document.rtf_footnote.border_bottom = BroadcastValue(
-                value=document.rtf_footnote.border_bottom, dimension=(1, 1)
-            ).update_row(0, [doc_border_bottom[0]])
-        else:
-            # Apply bottom border to last section's last row
-            if isinstance(document.rtf_body, list) and isinstance(document.df, list):
-                last_section_body = document.rtf_body[-1]
-                last_section_dim = document.df[-1].shape
-                if last_section_dim[0] > 0 and doc_border_bottom is not None:
-                    last_section_body.border_bottom = BroadcastValue(
-                        value=last_section_body.border_bottom,
-                        dimension=last_section_dim,
-                    ).update_row(last_section_dim[0] - 1, doc_border_bottom)
 
         return "\n".join(
             [
